@@ -173,6 +173,8 @@ Info == [m |-> mi, M |-> cm, sig |-> SigType(cm),
          cartan |-> [k \in KindsOf(cm) |-> CartanOf(cm, k)],
          params |-> [k \in KindsOf(cm) \cap {"tvs", "tva"} |-> ParamsOf(cm, k)],
          relators |-> Relators(cm), orderbound |-> OrderBound,
+         \* tits_vinberg_rep(parameters, diagonalize=True) needs a nondegenerate symmetric Cartan matrix
+         tvsdet |-> IF Applicable(cm, "tvs") THEN Det(CartanOf(cm, "tvs")) ELSE 0,
          infinite |-> {p \in Pairs(cm) : cm[p[1]][p[2]] = 0}]
 EmitInfo == cls = Id0 => PrintT("INFO " \o ToJson(Info))
 
